@@ -4,6 +4,7 @@
 //         (stride 1: &[T];  stride N, len 1: &GenericArray<T,N> or &[T;N];  stride N, len k: &[GenericArray<T,N>])
 //   Ptr = a raw pointer with the provenance [lo, hi) it was derived from
 pub struct Sl { pub base: int, pub off: usize, pub len: usize, pub stride: usize }
+#[derive(Clone, Copy)]
 pub struct Ptr { pub base: int, pub off: usize, pub stride: usize, pub lo: usize, pub hi: usize }
 
 impl Sl {
